@@ -59,7 +59,7 @@ def gen_mr_case(rng, small=True, nfiles=None):
         "cleanup": rng.random() < 0.3,
         "packed": rng.random() < 0.5,
     }
-    names = rng.choice(["padded", "padded", "reverse", "unpadded"])
+    names = rng.choice(["padded", "padded", "reverse", "unpadded", "samename"])
     if nfiles >= 2 and (cfg["split_after"] or cfg["refine"] != "none") and rng.random() < 0.7:
         names = "reverse"       # rounds that re-read the inputs by global index: order given != order sorted
     return {"nf": nf, "files": files, "cfg": cfg, "names": names}
@@ -75,7 +75,11 @@ def write_inputs(case, d: Path):
         X = np.packbits(A, axis=1) if case["cfg"]["packed"] else A
         # the workflow numbers fingerprints in the order the files are GIVEN, whatever their names:
         # "reverse" and "unpadded" make that order differ from the sorted-name order
-        if scheme == "reverse":
+        if scheme == "samename":
+            # several libraries fingerprinted separately: the same file name in different directories
+            (d / f"lib-{i}").mkdir(exist_ok=True)
+            nm = f"lib-{i}/fps.{str(i % 2).zfill(4)}.npy"
+        elif scheme == "reverse":
             nm = f"in-{str(k - 1 - i).zfill(z)}.npy"
         elif scheme == "unpadded":
             nm = f"fps.{8 + i}.npy"
